@@ -48,6 +48,8 @@ fn scenarios(w: &WorkDir, thorough: bool) -> Vec<Scenario> {
 		d
 	});
 	w.write("table.json", b"{\"t\":{\"k\":\"v\"},\"x\":1}\n");
+	w.write("empty-tail.json", b"{\"k\":[1,2],\"e\":\"\"}\n");
+	w.write("empty-tail2.json", b"[\"x\",\"\"]\n{}\n[]\n\"\"\n");
 	let targets: &[F] = &F::ALL;
 	for &to in targets {
 		let t = format!("-t{}", to.letter());
@@ -59,6 +61,10 @@ fn scenarios(w: &WorkDir, thorough: bool) -> Vec<Scenario> {
 			}
 		}
 		if to != F::Toml {
+			for f in ["empty-tail.json", "empty-tail2.json"] {
+				v.push(Scenario { name: format!("{}:file:{f}", to.name()), args: vec![t.clone(), f.to_string()], stdin: None });
+			}
+			v.push(Scenario { name: format!("{}:2files-empty-tail", to.name()), args: vec![t.clone(), "tiny.json".into(), "empty-tail.json".into()], stdin: None });
 			v.push(Scenario { name: format!("{}:3files", to.name()), args: vec![t.clone(), "tiny.json".into(), "near8k-b.json".into(), "tiny.json".into()], stdin: None });
 			v.push(Scenario { name: format!("{}:3files-stdin", to.name()), args: vec![t.clone(), "tiny.json".into(), "-".into(), "near8k-c.json".into()], stdin: Some(b"[\"from stdin\"]\n".to_vec()) });
 		}
